@@ -1,6 +1,9 @@
 """C07 stage "prims": the primitive shapes as colliders with integer rays (directions in [-3,3]^3 scaled by 1, 2^-30
 and 2^10) and balls of radius m/4; judged by spec/geom/PrimJudge.tla (exact hit counts for spheres / circles / boxes
-from integer sign analysis, consistency laws decided in the harness for the others)."""
+from integer sign analysis, consistency laws decided in the harness for the others).
+
+Also model3d.ProfileCollider of a 2D Rect (= box: exact hit counts and parameters, exact ball test) and of a 2D Circle
+(= cylinder: consistency laws against the reference cylinder's own field)."""
 import solids
 
 CLAUSES = {"panic", "count", "hits", "first", "parity", "ball", "exact"}
